@@ -253,3 +253,73 @@ def g2_worklist(F, R):
             R.bad(key, f"{key}: `{X}` is marked in `{V}` when it is popped, but nothing tests `{V}` at that point (a filter where nodes are queued does not help: a node is queued once per already-popped successor until its own first visit): the same node is processed twice, its predecessors are queued twice, and whether that happens depends on the iteration order of a HashSet", loc(marks[0]))
         else:
             R.bad(key, f"{key}: successors are queued before `{X}` is marked in `{V}`", loc(marks[0]))
+
+
+NEUTRAL = {"cmp", "partial_cmp", "then_with", "then", "as_ref", "borrow", "deref", "clone", "as_str", "as_slice", "reverse", "unwrap_or", "eq", "ne"}
+
+
+@rule("C10", "G2.ord-consistent-with-eq", floor=2)
+def g2_ord(F, R):
+    """sorting, `min`/`max` and ordered maps make hash-ordered data canonical only if the order is total on distinct values: every hand-written `Ord` compares (at least) the fields its `Eq` compares, without passing them through a non-injective transformation (`to_lowercase`, `len`, ...); two distinct values that compare `Equal` keep their hash order"""
+    n = 0
+    for i in F.impls:
+        if (i.get("trait") or "") not in ("core::cmp::Ord",) and not (i.get("trait") or "").endswith("cmp::Ord"):
+            continue
+        cp = [it["path"] for it in i["items"] if it["name"] == "cmp"]
+        if not cp or cp[0] not in F.fns:
+            continue
+        f = F.fns[cp[0]]
+        if "hir" not in f or (f.get("exp") or "").startswith("Derive"):
+            continue
+        ty = i["self_ty"]
+        name = short(ty.split("<")[0])
+        n += 1
+        body = f["hir"]["value"]
+        ord_fields, lossy = set(), []
+        from .p_parse import parent_map
+        pm = parent_map(body)
+        for fl in walk(body, pats=False):
+            if fl.get("k") == "Field" and ekey(fl["e"]).lstrip("&*") in ("self", "other"):
+                ord_fields.add(fl["name"])
+                x = fl
+                while id(x) in pm:
+                    par = pm[id(x)]
+                    if par.get("k") == "MethodCall" and par.get("recv") is x:
+                        if par["name"] not in NEUTRAL:
+                            lossy.append((fl["name"], par["name"], par))
+                            break
+                        if par["name"] in ("cmp", "partial_cmp"):
+                            break
+                        x = par
+                        continue
+                    if par.get("k") in ("AddrOf", "Unary", "DropTemps", "Use"):
+                        x = par
+                        continue
+                    break
+        # Eq: hand-written or derived
+        eq_fields = None
+        for j in F.impls:
+            if j["self_ty"] == ty and (j.get("trait") or "").startswith("core::cmp::PartialEq") and (j.get("trait") in ("core::cmp::PartialEq", f"core::cmp::PartialEq<{ty}>") or (j.get("trait") or "").endswith("PartialEq")):
+                ep = [it["path"] for it in j["items"] if it["name"] == "eq"]
+                if ep and ep[0] in F.fns and "hir" in F.fns[ep[0]]:
+                    g = F.fns[ep[0]]
+                    if (g.get("exp") or "").startswith("Derive"):
+                        continue
+                    eq_fields = {fl["name"] for fl in walk(g["hir"]["value"], pats=False) if fl.get("k") == "Field" and ekey(fl["e"]).lstrip("&*") in ("self", "other")}
+        if eq_fields is None:
+            try:
+                adt = F.adt(ty.split("<")[0])
+                eq_fields = {fl["name"] for v in adt["variants"] for fl in v["fields"]}
+            except Exception:
+                eq_fields = set()
+        key = name
+        why = exempt("G2.ord-consistent-with-eq", key)
+        if lossy:
+            fld, meth, node = lossy[0]
+            R.bad(f"{name}|lossy", f"`Ord for {name}` compares `{fld}` through `{meth}()`: distinct values can compare `Equal` (e.g. labels that differ only in case), and wherever a hash-ordered collection of them is made canonical by sorting or `min()`, the tie keeps the hash order", loc(node))
+        elif not eq_fields <= ord_fields and not why:
+            R.bad(f"{name}|fields", f"`Ord for {name}` compares {sorted(ord_fields)} but equality looks at {sorted(eq_fields)}: values that differ only in {sorted(eq_fields - ord_fields)} compare `Equal` without being equal", f["sp"])
+        else:
+            R.ok(key, detail=(f"E: {why}" if why and not eq_fields <= ord_fields else f"Ord for {name} compares {sorted(ord_fields)} ⊇ Eq fields {sorted(eq_fields)}"))
+    if n == 0:
+        raise Anchor("no hand-written Ord impl found")
